@@ -10,7 +10,17 @@
 //! future is polled by the simulator only at `drain` events (searches issued while index
 //! events are still queued are counted as lagging reads and not asserted).
 //!
-//! Oracle: brute-force k-NN over the model under the DECLARED metric.  Vectors are small
+//! Size classes: most runs keep every index small enough to be searched exactly (<= 128
+//! vectors); in 1/8 of the runs (knob `big`) a `bulk` event creates 140-200 (thorough: up to
+//! 400) vector-bearing nodes at once, so the (label, emb) index is answered from the HNSW
+//! graph, and the history then updates / relabels / deletes any of them and searches with k
+//! up to 100.
+//!
+//! Oracle: brute-force k-NN over the model under the DECLARED metric.  While model or index
+//! hold more than 128 vectors for the label, only what the statement promises for every index
+//! is asserted (live nodes carrying label and vector, each at most once, listed in
+//! non-decreasing declared distance to their CURRENT vector, reported score = that distance);
+//! "exactly the k nearest" is asserted only for exactly-searched indexes.  Vectors are small
 //! integer grid points (exact in f32), queries half-integer grid points; distances are
 //! recomputed in f64 and compared with a 1e-5 tie tolerance (ties compared as sets).
 
@@ -32,6 +42,8 @@ pub struct C29;
 
 const LABELS: [&str; 2] = ["V", "W"];
 const EPS: f64 = 1e-5;
+/// `VectorIndex` answers an index of up to this many vectors by an exact scan, a larger one from the HNSW graph
+const EXACT_MAX: usize = 128;
 
 #[derive(Clone, Debug)]
 struct MNode {
@@ -104,7 +116,9 @@ fn gen_vec(r: &mut Rng, dim: usize) -> Vec<i64> {
 }
 
 /// Verdict of one search against the model.  Returns (signature class, detail).
-fn judge(m: &Model, label: &str, metric: u64, q: &[f64], k: usize, res: &[(u64, f64)]) -> Option<(String, String)> {
+/// `approx` = the index is too large to be searched exactly: the k-nearest clause is not
+/// asserted; instead the reported score must be the declared distance to the CURRENT vector.
+fn judge(m: &Model, label: &str, metric: u64, q: &[f64], k: usize, res: &[(u64, f64)], approx: bool) -> Option<(String, String)> {
     let eligible: BTreeMap<u64, Vec<f64>> = m
         .nodes
         .iter()
@@ -164,6 +178,18 @@ fn judge(m: &Model, label: &str, metric: u64, q: &[f64], k: usize, res: &[(u64, 
             return Some((format!("ranked/{}", why("rank_order")), format!("not in order of declared distance. {}", ctx())));
         }
     }
+    if approx {
+        // 5b: the value the list is ranked by is the declared distance to the node's current vector
+        // (squared L2 is accepted for an L2 index: same ranking)
+        for (id, s) in res {
+            let dcur = dist(metric, q, &eligible[id]);
+            let ok = (s - dcur).abs() <= 1e-4 || (metric == 1 && (s - dcur * dcur).abs() <= 1e-4);
+            if !ok {
+                return Some((format!("ranked/{}", why("score_not_current_distance")), format!("node {id} is listed at {s:.4}, the declared distance to its current vector is {dcur:.4}. {}", ctx())));
+            }
+        }
+        return None;
+    }
     // 6: exactly the k nearest
     let want = k.min(eligible.len());
     let mut all: Vec<f64> = eligible.values().map(|v| dist(metric, q, v)).collect();
@@ -191,11 +217,11 @@ impl Scenario for C29 {
         }
     }
     fn rule(&self) -> &'static str {
-        "history = <=50 (thorough <=90) events over <=~40 nodes with 0-2 of the labels {V,W} and a 2- or 3-dimensional integer-grid vector at `emb`: create (API / Cypher, float or integer list literal), vector update, overwrite with a string, property removal, label add/remove, delete (ids get reused), CREATE VECTOR INDEX per label with cosine or l2 (DDL, or API + rebuild_vector_index) at a PRNG-chosen point (may be re-declared), rebuild_vector_index, and searches with half-integer query vectors and k in 1..8 through VectorIndexManager::search, GraphStore::vector_search and CALL db.index.vector.queryNodes. Knobs: sync store or async-indexing store (indexer future polled only at drain events), dimension, allowed metrics, and mode (full | insert_only = only creations and searches, so the ranking / k-nearest clauses keep running next to known liveness findings). After every search with nothing queued for the indexer the result is compared with brute force under the declared metric. Non-trivial = an index exists, >=1 asserted search returned >=2 nodes, and (mode full) >=1 update/delete/label change happened after the index was declared. Distinct = hash of (knobs, event kinds, resolved ranks)."
+        "history = <=50 (thorough <=90) events over <=~40 nodes with 0-2 of the labels {V,W} and a 2- or 3-dimensional integer-grid vector at `emb`: create (API / Cypher, float or integer list literal), vector update, overwrite with a string, property removal, label add/remove, delete (ids get reused), CREATE VECTOR INDEX per label with cosine or l2 (DDL, or API + rebuild_vector_index) at a PRNG-chosen point (may be re-declared), rebuild_vector_index, and searches with half-integer query vectors and k in 1..8 through VectorIndexManager::search, GraphStore::vector_search and CALL db.index.vector.queryNodes. Knobs: sync store or async-indexing store (indexer future polled only at drain events), dimension, allowed metrics, mode (full | insert_only = only creations and searches, so the ranking / k-nearest clauses keep running next to known liveness findings) and size class (1 run in 8: a bulk event creates 140-200, thorough up to 400, vector-bearing nodes before or after the index is declared, so the index is answered from the HNSW graph; updates / removals then address any node and k goes up to 1000 = every live point). After every search with nothing queued for the indexer the result is compared with brute force under the declared metric; while model or index hold more than 128 vectors for the label the k-nearest clause is replaced by: reported score = declared distance to the node's current vector. Non-trivial = an index exists, >=1 asserted search returned >=2 nodes, and (mode full) >=1 update/delete/label change happened after the index was declared. Distinct = hash of (knobs, event kinds, resolved ranks)."
     }
     fn real_components(&self) -> Vec<&'static str> {
         vec![
-            "samyama::vector::{VectorIndex (exact path, <=128 vectors), VectorIndexManager}",
+            "samyama::vector::{VectorIndex (exact path <=128 vectors; HNSW path with the live-point filter above, in the big size class), VectorIndexManager}",
             "GraphStore index maintenance (handle_index_event / apply_property_set / rebuild_vector_index / create_vector_index) and the async path (with_async_indexing + start_background_indexer future, TenantManager::new())",
             "Cypher CREATE VECTOR INDEX, CALL db.index.vector.queryNodes, SET / REMOVE / DELETE operators",
         ]
@@ -207,13 +233,35 @@ impl Scenario for C29 {
         vec![
             "vectors are non-zero integer grid points in [-3,3]^d and queries non-zero half-integer grid points, so distinct declared distances differ by far more than the 1e-5 tie tolerance and f32 rounding cannot reorder them",
             "the returned score is used only to classify a violation (stale entry / wrong metric), never as a requirement",
-            "only indexes small enough to be searched exactly (<=128 entries) are exercised; the HNSW path is out of scope of the 'exactly the k nearest' clause",
+            "an index of more than 128 vectors (model count or the index's own len()) is not 'small enough to be searched exactly': there the result may miss neighbours and may be shorter than k; it must still list only live nodes carrying label and vector, each once, in non-decreasing declared distance to their CURRENT vector, and the score it reports for a node must be that distance (1e-4; squared L2 accepted for L2)",
+            "hnsw_rs seeds its layer assignment from rand 0.8 -> getrandom 0.2, which issues syscall(SYS_getrandom) and so bypasses the getrandom() shim: WHAT an HNSW-path search finds is not a function of the case. The verdict on the unchanged tree is (nothing stale can be returned); results of such searches are therefore left out of state_hash",
             "in async mode nothing is asserted while index events are queued (counted as lagging_read)",
             "an index is always declared through a path that backfills (DDL, or create_vector_index + rebuild_vector_index)",
         ]
     }
     fn required_probes(&self, _tier: Tier) -> Vec<&'static str> {
-        vec!["search_asserted", "search_cypher", "search_manager", "search_store", "lagging_read", "async_drained", "id_reused", "index_cosine", "index_l2", "tie_at_k", "k_exceeds_candidates", "insert_only_run"]
+        vec![
+            "search_asserted",
+            "search_cypher",
+            "search_manager",
+            "search_store",
+            "lagging_read",
+            "async_drained",
+            "id_reused",
+            "index_cosine",
+            "index_l2",
+            "tie_at_k",
+            "k_exceeds_candidates",
+            "insert_only_run",
+            "bulk_created",
+            "search_hnsw_asserted",
+            "search_hnsw_manager",
+            "search_hnsw_store",
+            "search_hnsw_cypher",
+            "hnsw_search_after_vector_update",
+            "hnsw_returns_updated_node",
+            "hnsw_search_after_removal",
+        ]
     }
     fn generate(&self, s: &mut Streams, _run_index: u64, tier: Tier) -> Case {
         let mut case = Case::new("C29");
@@ -234,6 +282,22 @@ impl Scenario for C29 {
             2 => 1,
             _ => r.below(2),
         };
+        // Index (re)construction is by far the most expensive step (VectorIndex::new sizes its HNSW
+        // for 100k elements: tens of ms), so its positions are drawn once per run instead of per event.
+        let idx2_at = if k.chance(1, 3) { k.usize_below(n + 1) } else { usize::MAX };
+        let redeclare_at = if k.chance(1, 8) { k.usize_below(n + 1) } else { usize::MAX };
+        let rebuild_at = if mode == 0 && k.chance(1, 8) { k.usize_below(n + 1) } else { usize::MAX };
+        // Size class (drawn last: the other runs stay the histories they always were): one run in
+        // eight starts from 140..200 (thorough: ..400) vector-bearing nodes created in one go, so the
+        // label's index is beyond the exact-search size and is answered from the HNSW graph.
+        let big = k.chance(1, 8);
+        let bulk_span = if tier == Tier::Thorough && k.chance(1, 4) { 261 } else { 61 };
+        let bulk_n = 140 + k.usize_below(bulk_span);
+        let bulk_at = k.usize_below(n.min(12) + 1);
+        let bulk_labels = if k.chance(2, 3) { 1 } else { 3 };
+        let n = if big { n.max(16) } else { n };
+        case.knobs.insert("big".into(), json!(big));
+        let nmax: u64 = if big { 4096 } else { 64 };
         let search = |r: &mut Rng| {
             let q: Vec<i64> = loop {
                 let v: Vec<i64> = (0..dim).map(|_| r.range(-6, 6)).collect();
@@ -241,15 +305,21 @@ impl Scenario for C29 {
                     break v;
                 }
             };
-            let kmax = if r.chance(1, 6) { 40 } else { 7 };
+            let kmax = if big {
+                // up to "everything": k beyond the index size asks the HNSW graph for every live point
+                [7, 40, 100, 1000][r.usize_below(4)]
+            } else if r.chance(1, 6) {
+                40
+            } else {
+                7
+            };
             json!({"op":"search","label":r.below(5) / 4,"q":q,"k":1 + r.below(kmax),"via":r.below(3),"drain":r.chance(2,3)})
         };
-        // Index (re)construction is by far the most expensive step (VectorIndex::new sizes its HNSW
-        // for 100k elements: tens of ms), so its positions are drawn once per run instead of per event.
-        let idx2_at = if k.chance(1, 3) { k.usize_below(n + 1) } else { usize::MAX };
-        let redeclare_at = if k.chance(1, 8) { k.usize_below(n + 1) } else { usize::MAX };
-        let rebuild_at = if mode == 0 && k.chance(1, 8) { k.usize_below(n + 1) } else { usize::MAX };
         for i in 0..n {
+            if big && i == bulk_at {
+                let vecs: Vec<Vec<i64>> = (0..bulk_n).map(|_| gen_vec(r, dim)).collect();
+                case.events.push(json!({"op":"bulk","labels":bulk_labels,"vecs":vecs}));
+            }
             if i == idx_at {
                 case.events.push(json!({"op":"create_index","label":0,"metric":metric(r),"via":r.below(2)}));
             }
@@ -276,15 +346,16 @@ impl Scenario for C29 {
                     _ => json!({"op":"drain"}),
                 }
             } else {
-                match r.weighted(&[12, 14, 7, 2, 2, 4, 4, 5, 0, 0, 3]) {
+                let weights: [u32; 11] = if big { [4, 16, 12, 2, 2, 3, 4, 6, 0, 0, 3] } else { [12, 14, 7, 2, 2, 4, 4, 5, 0, 0, 3] };
+                match r.weighted(&weights) {
                     0 => create(r),
                     1 => search(r),
-                    2 => json!({"op":"set_vec","n":r.below(64),"vec":gen_vec(r, dim),"via":r.below(2),"floats":r.chance(1,2)}),
-                    3 => json!({"op":"set_nonvec","n":r.below(64),"via":r.below(2)}),
-                    4 => json!({"op":"rm_vec","n":r.below(64),"via":r.below(2)}),
-                    5 => json!({"op":"add_label","n":r.below(64),"label":r.below(2),"via":r.below(2)}),
-                    6 => json!({"op":"rm_label","n":r.below(64),"label":r.below(2),"via":r.below(2)}),
-                    7 => json!({"op":"delete","n":r.below(64),"via":r.below(2)}),
+                    2 => json!({"op":"set_vec","n":r.below(nmax),"vec":gen_vec(r, dim),"via":r.below(2),"floats":r.chance(1,2)}),
+                    3 => json!({"op":"set_nonvec","n":r.below(nmax),"via":r.below(2)}),
+                    4 => json!({"op":"rm_vec","n":r.below(nmax),"via":r.below(2)}),
+                    5 => json!({"op":"add_label","n":r.below(nmax),"label":r.below(2),"via":r.below(2)}),
+                    6 => json!({"op":"rm_label","n":r.below(nmax),"label":r.below(2),"via":r.below(2)}),
+                    7 => json!({"op":"delete","n":r.below(nmax),"via":r.below(2)}),
                     8 => json!({"op":"create_index","label":r.below(2),"metric":metric(r),"via":r.below(2)}),
                     9 => json!({"op":"rebuild"}),
                     _ => json!({"op":"drain"}),
@@ -301,10 +372,25 @@ impl Scenario for C29 {
             e["via"] = json!(0);
             out.push(e);
         }
-        if op(ev) == "search" && u(ev, "k") > 3 {
+        if op(ev) == "search" && u(ev, "k") > 3 && u(ev, "k") <= 40 {
             let mut e = ev.clone();
             e["k"] = json!(3);
             out.push(e);
+        }
+        if op(ev) == "bulk" {
+            // fewer points, but still more than the exact-search bound
+            if let Some(v) = ev["vecs"].as_array() {
+                if v.len() > EXACT_MAX + 4 {
+                    let mut e = ev.clone();
+                    e["vecs"] = json!(v[..EXACT_MAX + 4].to_vec());
+                    out.push(e);
+                }
+            }
+            if u(ev, "labels") == 3 {
+                let mut e = ev.clone();
+                e["labels"] = json!(1);
+                out.push(e);
+            }
         }
         if op(ev) == "create" && u(ev, "labels") == 3 {
             let mut e = ev.clone();
@@ -339,6 +425,11 @@ impl Scenario for C29 {
         let mut hash = 0u64;
         let mut asserted_multi = false;
         let mut change_after_index = false;
+        // nodes whose vector was replaced / that lost label, vector or life while an index existed
+        // (only to report how often an HNSW-path search comes after such a change)
+        let mut updated: BTreeSet<u64> = BTreeSet::new();
+        let mut removals_while_big = false;
+        let eligible_count = |m: &Model, l: &str| m.nodes.values().filter(|n| n.labels.contains(l) && n.vec.is_some()).count();
         macro_rules! cy {
             ($q:expr) => {{
                 let q: String = $q;
@@ -363,6 +454,7 @@ impl Scenario for C29 {
             let live: Vec<u64> = m.nodes.keys().cloned().collect();
             let mut resolved = String::new();
             let had_index = !m.idx.is_empty();
+            let big_before = LABELS.iter().any(|l| m.idx.contains_key(*l) && eligible_count(&m, l) > EXACT_MAX);
             match kind.as_str() {
                 "create" => {
                     let bits = u(ev, "labels");
@@ -397,6 +489,36 @@ impl Scenario for C29 {
                     pending += 1;
                     resolved = format!("{bits}:{via}");
                 }
+                "bulk" => {
+                    // many vector-bearing nodes at once (API path: the cheap one)
+                    let bits = u(ev, "labels");
+                    let labels: Vec<&'static str> = LABELS.iter().enumerate().filter(|(i, _)| bits & (1 << i) != 0).map(|(_, l)| *l).collect();
+                    let Some(vecs) = ev["vecs"].as_array() else { continue };
+                    for v in vecs {
+                        let mut vec: Vec<i64> = v.as_array().map(|a| a.iter().map(|x| x.as_i64().unwrap_or(1)).collect()).unwrap_or_default();
+                        vec.resize(dim, 1);
+                        if vec.iter().all(|x| *x == 0) {
+                            vec[0] = 1;
+                        }
+                        let code = m.next_code;
+                        m.next_code += 1;
+                        let mut pm = PropertyMap::new();
+                        pm.insert("id".to_string(), PropertyValue::Integer(code));
+                        pm.insert("emb".to_string(), PropertyValue::Vector(vec.iter().map(|x| *x as f32).collect()));
+                        let id = g.create_node_with_properties("default", labels.iter().map(|l| Label::new(*l)).collect(), pm).as_u64();
+                        if m.nodes.contains_key(&id) {
+                            o.probe("harness_api_failed");
+                            break 'run;
+                        }
+                        if m.ever_deleted.contains(&id) {
+                            o.probe("id_reused");
+                        }
+                        m.nodes.insert(id, MNode { labels: labels.iter().cloned().collect(), vec: Some(vec), code });
+                        pending += 1;
+                    }
+                    o.probe("bulk_created");
+                    resolved = format!("{bits}:{}", vecs.len());
+                }
                 "set_vec" | "set_nonvec" | "rm_vec" => {
                     let Some(n) = pick(&live, u(ev, "n")) else { continue };
                     let code = m.nodes[&n].code;
@@ -411,6 +533,9 @@ impl Scenario for C29 {
                                 }
                             } else if !cy!(format!("MATCH (n {{id: {code}}}) SET n.emb = {}", vec_lit(&v, ev["floats"].as_bool().unwrap_or(true)))) {
                                 break 'run;
+                            }
+                            if had_index && m.nodes[&n].vec.is_some() {
+                                updated.insert(n);
                             }
                             m.nodes.get_mut(&n).unwrap().vec = Some(v);
                             pending += 1;
@@ -440,6 +565,9 @@ impl Scenario for C29 {
                         }
                     }
                     change_after_index |= had_index;
+                    if kind != "set_vec" && big_before {
+                        removals_while_big = true;
+                    }
                     resolved = format!("{}:{via}", live.iter().position(|x| *x == n).unwrap());
                 }
                 "add_label" | "rm_label" => {
@@ -472,6 +600,9 @@ impl Scenario for C29 {
                         }
                         m.nodes.get_mut(&n).unwrap().labels.remove(l);
                         pending += 1;
+                        if big_before {
+                            removals_while_big = true;
+                        }
                     }
                     change_after_index |= had_index;
                     resolved = format!("{}:{l}:{via}", live.iter().position(|x| *x == n).unwrap());
@@ -489,6 +620,10 @@ impl Scenario for C29 {
                     }
                     m.nodes.remove(&n);
                     m.ever_deleted.insert(n);
+                    updated.remove(&n);
+                    if big_before {
+                        removals_while_big = true;
+                    }
                     pending += 1;
                     change_after_index |= had_index;
                     resolved = format!("{}:{via}", live.iter().position(|x| *x == n).unwrap());
@@ -601,7 +736,31 @@ impl Scenario for C29 {
                                 break 'run;
                             }
                             Ok(Ok(rows)) => {
-                                hash = hash_str(&format!("{hash}|{rows:?}"));
+                                // Is this index searched exactly?  Both the model's and the index's own
+                                // count must say so; otherwise only the clauses that hold for every index apply.
+                                let held = g.vector_index.get_index(l, "emb").map(|i| i.read().unwrap().len()).unwrap_or(0);
+                                let approx = eligible_count(&m, l) > EXACT_MAX || held > EXACT_MAX;
+                                if approx {
+                                    // the HNSW graph draws its layer assignment from thread_rng: what it
+                                    // finds is not a function of the case, only the verdict is
+                                    hash = hash_str(&format!("{hash}|approx"));
+                                    o.probe("search_hnsw_asserted");
+                                    o.probe(&format!("search_hnsw_{how}"));
+                                    if !updated.is_empty() {
+                                        o.probe("hnsw_search_after_vector_update");
+                                    }
+                                    if rows.iter().any(|(i, _)| updated.contains(i)) {
+                                        o.probe("hnsw_returns_updated_node");
+                                    }
+                                    if removals_while_big {
+                                        o.probe("hnsw_search_after_removal");
+                                    }
+                                    if rows.len() < k.min(eligible_count(&m, l)) {
+                                        o.probe("hnsw_fewer_than_k");
+                                    }
+                                } else {
+                                    hash = hash_str(&format!("{hash}|{rows:?}"));
+                                }
                                 o.probe("search_asserted");
                                 let cand = m.nodes.values().filter(|n| n.labels.contains(l) && n.vec.is_some()).count();
                                 if k > cand {
@@ -618,8 +777,9 @@ impl Scenario for C29 {
                                         o.probe("tie_at_k");
                                     }
                                 }
-                                if let Some((class, detail)) = judge(&m, l, metric, &q, k, &rows) {
-                                    o.violate(Violation::new(format!("C29/{class}/{how}"), detail, step));
+                                if let Some((class, detail)) = judge(&m, l, metric, &q, k, &rows, approx) {
+                                    let path = if approx { "hnsw_" } else { "" };
+                                    o.violate(Violation::new(format!("C29/{class}/{path}{how}"), detail, step));
                                     break 'run;
                                 }
                             }
